@@ -1,10 +1,13 @@
 (** C19 — the ingest receiver under concurrent uploads (DESIGN.md 4.3, section 5 C19).
-    (i)   ChannelMgr.AddChannel / GetChannel as a monitor object of Conc.v: atomic in every schedule.
-    (ii)  the upload handler's  Get; if !ok { Add }; Get  as a small-step system of any number of
-          handler threads over that (atomic) table: two first uploads of one channel can both
-          create a channel object ([two_channels_witness]); if the check-then-add were one atomic
-          step, every schedule creates one object per name and registers every track in it
-          ([atomic_handler_all_registered]).
+    (i)   ChannelMgr.AddChannel / GetChannel / GetOrAddChannel as a monitor object of Conc.v: atomic
+          in every schedule.
+    (ii)  the upload handler's channel lookup as a small-step system of any number of handler
+          threads over that table. [hstep true] is the handler as it is since dab6065
+          (ch := GetOrAddChannel(...): one atomic step): every schedule creates one object per name
+          and registers every track in it ([atomic_handler_all_registered]). [hstep false] is the
+          handler shape before dab6065 (Get; if !ok { Add }; Get): two first uploads of one channel
+          could both create a channel object ([two_channels_witness], kept as a statement about
+          that old shape).
     (iii) lock discipline over the access tables regenerated from the sources (gen/Access.v). *)
 From Verif Require Import GoSem Conc.
 From Coq Require Import ZifyBool.
@@ -21,7 +24,7 @@ Fixpoint tset (n v : Z) (t : list (Z * Z)) : list (Z * Z) :=
 
 (** table (name -> channel object id) and the id the next newChannel gets *)
 Definition mgr : Type := (list (Z * Z) * Z)%type.
-Inductive mop := MAdd (n : Z) | MGet (n : Z).
+Inductive mop := MAdd (n : Z) | MGet (n : Z) | MGetOrAdd (n : Z).
 Definition mret : Type := option Z.
 
 (** cm.channels[chName] = newChannel(...) under mu.Lock(); fs, ok := cm.channels[chName] under mu.RLock() *)
@@ -29,6 +32,11 @@ Definition m_body (o : mop) : list (mret * mgr -> mret * mgr) :=
   match o with
   | MAdd n => [fun x => (fst x, (tset n (snd (snd x)) (fst (snd x)), snd (snd x) + 1))]
   | MGet n => [fun x => (tlookup n (fst (snd x)), snd x)]
+  (* GetOrAddChannel: under mu.Lock(): if ch, ok := channels[n]; ok { return ch }; addChannelLocked; return channels[n] *)
+  | MGetOrAdd n => [fun x => match tlookup n (fst (snd x)) with
+                             | Some id => (Some id, snd x)
+                             | None => (Some (snd (snd x)), (tset n (snd (snd x)) (fst (snd x)), snd (snd x) + 1))
+                             end]
   end.
 Definition m_loc0 (o : mop) : mret := None.
 Definition m_result (o : mop) (l : mret) : mret := l.
@@ -37,10 +45,18 @@ Definition m_apply (o : mop) (s : mgr) : mgr * mret :=
   match o with
   | MAdd n => ((tset n (snd s) (fst s), snd s + 1), None)
   | MGet n => (s, tlookup n (fst s))
+  | MGetOrAdd n => match tlookup n (fst s) with
+                   | Some id => (s, Some id)
+                   | None => ((tset n (snd s) (fst s), snd s + 1), Some (snd s))
+                   end
   end.
 
 Lemma m_apply_ok o s : apply mgr mop mret mret m_loc0 m_body m_result o s = m_apply o s.
-Proof. destruct o, s; reflexivity. Qed.
+Proof.
+  destruct o, s as [t nx]; try reflexivity.
+  unfold apply, run_micros, m_body, m_apply, m_loc0, m_result. cbn [fold_left fst snd].
+  destruct (tlookup n t); reflexivity.
+Qed.
 
 (** every schedule of any number of goroutines calling Add/Get equals a sequential order *)
 Lemma mgr_atomic : forall (progs : list (list mop)) s0 sched,
@@ -55,9 +71,9 @@ Proof. intros. apply atomic_linearizable. assumption. Qed.
 (* ------------------------------------------------------------------------------------------ *)
 (** * (ii) the upload handler over the atomic table *)
 Inductive pc :=
-| PGet1                 (* ch, ok := GetChannel(name) *)
-| PAdd                  (* !ok: AddChannel(name) *)
-| PGet2                 (* ch, _ = GetChannel(name) *)
+| PGet1                 (* since dab6065: ch := GetOrAddChannel(name); before: ch, ok := GetChannel(name) *)
+| PAdd                  (* old handler only: !ok: AddChannel(name) *)
+| PGet2                 (* old handler only: ch, _ = GetChannel(name) *)
 | PReg (id : Z)         (* the rest of the handler works on channel object id: registers its track there *)
 | PDone (id : Z).
 
@@ -125,7 +141,7 @@ Definition visible_tracks (name : Z) (w : world) : list Z :=
   | Some id => map snd (filter (fun r => fst r =? id) (w_tracks w))
   end.
 
-(** ** the witness schedule: thread 0 completes its check-then-add and registers track 10 in
+(** ** the handler shape before dab6065. The witness schedule: thread 0 completes its check-then-add and registers track 10 in
     channel object 0; thread 1 had already seen "no channel" and replaces the table entry *)
 Lemma two_channels_witness :
   exists sched,
@@ -140,7 +156,7 @@ Lemma sequential_one_channel :
   all_doneb w = true /\ objects_of 7 w = [0] /\ visible_tracks 7 w = [10; 11].
 Proof. vm_compute. repeat split. Qed.
 
-(** ** with an atomic get-or-create, for every number of uploads and every schedule *)
+(** ** the handler as it is (atomic GetOrAddChannel), for every number of uploads and every schedule *)
 Definition thread_inv (w : world) (th : hthread) : Prop :=
   match h_pc th with
   | PGet1 => True
